@@ -32,7 +32,7 @@ func writeManifest() {
 		Reason     string `json:"reason"`
 	}
 	var checks []check
-	var nas []na
+	nas := []na{}
 	var served []string
 	for i := 1; i <= 57; i++ {
 		id := fmt.Sprintf("C%02d", i)
